@@ -3,7 +3,7 @@ from . import check_combo, check_errors, check_establish, check_h2, check_framin
 REGISTRY = {
     "C01": check_combo,
     "C02": check_framing,
-    "C03": check_reqwire,
+    "C03": check_combo,
     "C04": check_pool,
     "C05": check_pool,
     "C06": check_pool,
